@@ -64,9 +64,13 @@ def leaf_queries():
             q('leaf_getscriptop_len', 'h_getscriptop_len', 8, 8, bounded='scripts up to 100,000 bytes by length arithmetic (no payload bytes)'),
             q('leaf_hasvalidops', 'h_hasvalidops', 8, 16, bounded='all scripts of at most 8 bytes (loop over operations: no invariant proof)'),
             q('leaf_hasvalidops_n11', 'h_hasvalidops', 11, 16, 'thorough', bounded='all scripts of at most 11 bytes'),
+            *[Query(f'leaf_hasvalidops_loop_{h}', 'harness', ULF.unit_hvo_loop, f'h_hvo_loop_{h}', defines=['VERIF_ITEM_CAP=8'], unwind=12, timeout=600,
+                    functions=['script/script.cpp: CScript::HasValidOps (loop cut into initialisation, condition, body by R-LOOPCUT; GetScriptOp as contract)']) for h in ('step', 'init', 'exit')],
             q('leaf_casttobool', 'h_casttobool', 8, 80, bounded='values of at most 80 bytes (the loop is length-generic; 520 in the thorough tier)'),
             q('leaf_casttobool_k520', 'h_casttobool', 8, 520, 'thorough'),
             q('leaf_checkminimalpush', 'h_checkminimalpush', 8, 8),
+            Query('leaf_locktime', 'harness', ULF.unit_locktime, 'h_locktime', defines=['VERIF_ITEM_CAP=16'], unwind=20, timeout=600,
+                  functions=['script/interpreter.cpp: GenericTransactionSignatureChecker<T>::CheckLockTime (BIP65)', 'script/interpreter.cpp: GenericTransactionSignatureChecker<T>::CheckSequence (BIP112)']),
             Query('leaf_condstack', 'harness', ULF.unit_condstack, 'h_condstack', unwind=8, timeout=600, functions=['debugger/see.h: ConditionStack (size, empty, all_true, at, push_back, pop_back, toggle_top)'])]
 QUERIES = step_queries() + leaf_queries() + [L.END_OF_SCRIPT, L.INSTANCE_STEP, L.CTOR, L.CONTINUE]
 META = {
@@ -74,14 +78,14 @@ META = {
  'trusted_base': TRUSTED,
  'assumptions': ASSUME_COMMON + [
    "contract of CScript::GetOp assumed at L1 (returns the decoded opcode, its push payload and the encoded length); proved for the real GetScriptOp in the leaf queries",
-   "hash functions, CheckLockTime/CheckSequence are uninterpreted oracles (ghost-logged arguments, arbitrary answers)",
+   "hash functions are uninterpreted oracles; inside the step queries CheckLockTime/CheckSequence are oracles too (ghost-logged operand, arbitrary answer) - their real bodies are proved separately against BIP65 / BIP112 for all transactions and operands (leaf_locktime)",
    "signature opcodes (CHECKSIG*, CHECKMULTISIG*, CHECKSIGADD) are decided under C02, re-enabled opcodes under C17",
    "pre-state well-formedness: sigversion in {BASE, WITNESS_V0, TAPSCRIPT}, 0 <= nOpCount <= 201, ConditionStack representation invariant, stack depth <= 10^9",
  ],
  'explanation': 'per opcode group: requires/ensures contract of the real StepScript against an executable transcription of the consensus rules (harness/spec_step.h); all stack depths via the ghost-prefix window; flags, script version, op count, conditional state fully symbolic',
 }
 MANIFEST = {
- 'text': 'Deductive check of the real interpreter step (script/interpreter.cpp StepScript, sliced verbatim each run) against an executable transcription of the consensus rules, one contract per opcode group: for every stack depth (ghost-prefix window), every flag set, all three script versions, any op count and conditional-nesting state, the post-state (main stack, alt stack, nesting, op count, code-separator bookkeeping), the success/error verdict and the raised exception kind equal what the rules prescribe, and nothing else changes. Element storage is bounded (40/64 bytes) and PICK/ROLL depth is bounded (7): those are reported as bounded stand-ins, not proofs.',
+ 'text': 'Deductive check of the real interpreter step (script/interpreter.cpp StepScript, sliced verbatim each run) against an executable transcription of the consensus rules, one contract per opcode group: for every stack depth (ghost-prefix window), every flag set, all three script versions, any op count and conditional-nesting state, the post-state (main stack, alt stack, nesting, op count, code-separator bookkeeping), the success/error verdict and the raised exception kind equal what the rules prescribe, and nothing else changes. The refusal rule for scripts (CScript::HasValidOps) is a loop contract for scripts of every length (init / arbitrary iteration / exit on the real loop body, GetScriptOp as its proved contract). Element storage is bounded (40/64 bytes) and PICK/ROLL depth is bounded (7): those are reported as bounded stand-ins, not proofs.',
  'note': 'Trusted: CBMC 6.11, slicer rewrite rules, stub containers (ghost-prefix window model), the spec transcription harness/spec_step.h, GetOp/hash/lock-time oracles. Not covered here: signature opcodes (C02), extended opcodes (C17), session-level stepping (C04/C12), output formatting.',
  'technique': 'assume/assert function contract (requires/ensures/frame) of the real StepScript per opcode group, discharged by CBMC over fully symbolic pre-states; callee GetOp replaced by its contract; canary obligations guard against vacuity',
  'design_ref': 'DESIGN.md 4 (L1), 6 (C01)',
